@@ -584,3 +584,51 @@ func ZZ_C15_bearer_replay() {
 		}
 	}
 }
+
+// ZZ_C15_bearer_reconfigured: the JWT-bearer policy (maximum assertion lifetime, "jti optional", "iat optional")
+// is CHANGED between two assertions presented to one handler: the second assertion is judged by the policy in
+// force when it is presented - a lifetime or an omitted claim that the first policy allowed is refused under a
+// stricter second policy, and accepted under a laxer one.
+func ZZ_C15_bearer_reconfigured() {
+	id1, iat1 := zz.Bool("first.idopt"), zz.Bool("first.iatopt")
+	max1 := time.Duration(zz.Int("first.max.s", 60, 7200)) * time.Second
+	w := newBearerWorld(zzjwt.P256, zzjwt.RSA, false, id1, iat1, max1)
+	now := time.Now()
+	// first assertion: complete and short-lived, accepted under every policy
+	sp1 := bconcrete(now, w.keys["A"], "iss1", "sub1", "jti-first", 30)
+	sp1.scopes = []string{"photos"}
+	_, err := w.grant(sp1.token(), sp1.scopes)
+	zz.Assert(err == nil, "bearer reconfigured: a complete, short-lived assertion is granted")
+	// the policy changes
+	id2, iat2 := zz.Bool("second.idopt"), zz.Bool("second.iatopt")
+	max2 := time.Duration(zz.Int("second.max.s", 60, 7200)) * time.Second
+	w.cfg.GrantTypeJWTBearerIDOptional, w.cfg.GrantTypeJWTBearerIssuedDateOptional, w.cfg.GrantTypeJWTBearerMaxDuration = id2, iat2, max2
+	w.idOpt, w.iatOpt, w.maxSecs = id2, iat2, int64(max2/time.Second)
+	life := zz.Int("life", 2, 7300)
+	sp2 := bconcrete(now, w.keys["A"], "iss1", "sub1", "jti-second", life)
+	sp2.scopes = []string{"photos"}
+	noJTI, noIAT := zz.Choice("second.jti", 2) == 1, zz.Choice("second.iat", 2) == 1
+	if noJTI {
+		sp2.jti = claim{kind: "absent"}
+	}
+	if noIAT {
+		sp2.iat = claim{kind: "absent"}
+	}
+	_, err = w.grant(sp2.token(), sp2.scopes)
+	zz.Observe("second.err", errName(err))
+	if err == nil {
+		zz.Cover("bearer-reconfigured:granted", true)
+		zz.Assert(zz.Or(zz.Not(noJTI), id2), "bearer reconfigured: granted without jti => jti is optional NOW")
+		zz.Assert(zz.Or(zz.Not(noIAT), iat2), "bearer reconfigured: granted without iat => iat is optional NOW")
+		// lifetime counted from iat (5 s before now) when present, else from now
+		dur := life
+		if !noIAT {
+			dur = life + 5
+		}
+		zz.Assert(dur <= w.maxSecs, "bearer reconfigured: granted => the assertion's lifetime is within the maximum in force NOW")
+	} else {
+		zz.Cover("bearer-reconfigured:refused", true)
+		zz.Assert(zz.Not(w.legit(sp2)), "bearer reconfigured: an assertion that satisfies the policy in force NOW is granted")
+	}
+	zz.Cover("bearer-reconfigured:max-shortened", max2 < max1)
+}
